@@ -1,3 +1,4 @@
 import Gomjml.Props.C07
 #print axioms Gomjml.Props.C07.C07_no_shared_writes
 #print axioms Gomjml.Props.C07.C07_isolated
+#print axioms Gomjml.Props.C07.C07_stateful_package_variables
